@@ -50,7 +50,6 @@ ParseClauses(e) ==
 HopInit == [items |-> <<>>, ip |-> "", min |-> 0, max |-> 0,
             socks |-> <<>>,        \* sockets successfully created, in creation order (last = newest)
             open  |-> {},          \* created and not closed
-            newSince |-> {},       \* sockets that were the newest at some point since the last quiescent point
             newRet |-> FALSE, lastT |-> 0,
             seen |-> {}, arr |-> {},          \* tags ever injected / deliverable and not yet returned by ReadFrom
             rEarly |-> {}, rLate |-> {},      \* ReadFrom calls in flight, made before / after Close returned
@@ -75,8 +74,7 @@ HopStep(m, e, ln) ==
               << <<"DRIFT_IntervalConfig",
                     e.ok # (~e.lfail /\ ((h.min = 0 /\ h.max = 0) \/ (h.min >= 5000 /\ h.max >= h.min)))>> >>)]
     [] e.ev = "Listen" ->
-         LET h1 == IF e.ok THEN [h EXCEPT !.socks = Append(h.socks, e.sock), !.open = h.open \cup {e.sock},
-                                          !.newSince = h.newSince \cup {e.sock}] ELSE h
+         LET h1 == IF e.ok THEN [h EXCEPT !.socks = Append(h.socks, e.sock), !.open = h.open \cup {e.sock}] ELSE h
              d  == e.t - h.lastT
          IN [m EXCEPT !.h = IF h.newRet THEN [h1 EXCEPT !.lastT = e.t] ELSE h1,
                !.viol = VAll(m.viol, e, ln,
@@ -85,14 +83,17 @@ HopStep(m, e, ln) ==
     [] e.ev = "InnerWrite" ->
          [m EXCEPT !.viol = VAll(m.viol, e, ln,
             << <<"InSet",            e.ip # h.ip \/ ~Cov(h.items, e.port)>>,
-               <<"NewestSocket",     e.sock \notin h.newSince>>,
+               \* InnerWrite is logged by the fake socket at the instant the datagram leaves (after a parked
+               \* write has been released): it must leave from the newest local socket of that instant
+               <<"NewestSocket",     e.sock # Newest(h)>>,
                <<"ClosedWriteFails", h.closeRet /\ h.wEarly = {}>> >>)]
     [] e.ev = "WriteCall" ->
          IF h.closeRet THEN [m EXCEPT !.h.wLate = h.wLate \cup {e.w}]
                        ELSE [m EXCEPT !.h.wEarly = h.wEarly \cup {e.w}]
     [] e.ev = "WriteRet" ->
          [m EXCEPT !.h.wEarly = h.wEarly \ {e.w}, !.h.wLate = h.wLate \ {e.w},
-            !.viol = VAll(m.viol, e, ln, << <<"ClosedWriteFails", e.w \in h.wLate /\ e.ok>> >>)]
+            !.viol = VAll(m.viol, e, ln, << <<"ClosedWriteFails", e.w \in h.wLate /\ e.ok>>,
+                                            <<"DRIFT_WriteFails", ~e.ok /\ ~h.closeCall>> >>)]
     [] e.ev = "ReadCall" ->
          IF h.closeRet THEN [m EXCEPT !.h.rLate = h.rLate \cup {e.r}]
                        ELSE [m EXCEPT !.h.rEarly = h.rEarly \cup {e.r}]
@@ -110,8 +111,7 @@ HopStep(m, e, ln) ==
     [] e.ev = "CloseCall" -> [m EXCEPT !.h.closeCall = TRUE]
     [] e.ev = "CloseRet"  -> [m EXCEPT !.h.closeRet = TRUE]
     [] e.ev = "Quiesce" ->
-         [m EXCEPT !.h.newSince = IF Newest(h) = 0 THEN {} ELSE {Newest(h)},
-            !.viol = VAll(m.viol, e, ln,
+         [m EXCEPT !.viol = VAll(m.viol, e, ln,
               << <<"AtMostTwo", Cardinality(h.open) > 2>>,
                  <<"Delivers",  ~h.closeCall /\ h.arr # {} /\ h.rEarly # {}>>,
                  <<"ClosedAll", h.closeRet /\ h.open # {}>> >>)]
